@@ -1,6 +1,7 @@
 import Operon.Lemmas.C15
 import Operon.Lemmas.C15Dfs
 import Operon.Lemmas.C15Life
+import Operon.Lemmas.C15Boost
 import Operon.Gen.CoordAdvanceProbe
 import Operon.Gen.CoordVictimProbe
 /-!
@@ -96,6 +97,60 @@ theorem c15_victim_is_min_priority_or_oldest (s : Sys) (v : Nat) (h : (v, Reason
   obtain ⟨cyc, hcyc, hsel⟩ := wdCheck_deadlock (s := s) h
   obtain ⟨cv, hcv, _, _, hmem, hp, ho⟩ := selectVictim_spec hsel
   exact ⟨cyc, cv, hcyc, hmem, hcv, hp, ho⟩
+
+/-- **Priority inheritance only raises priorities.**  `PriorityInheritance.check_and_boost` leaves the locks, the
+    recorded graph (hence what `detect_cycle` answers) and the strategy alone; every operation listed before is listed
+    afterwards with the same id and the same creation time and a priority that is not lower, and nobody else is listed;
+    whom a priority-blind rule ("oldest", or an unknown strategy) picks from any agent list does not change. -/
+theorem c15_priority_inheritance_only_raises_priorities (s : Sys) :
+    let s' := (checkAndBoost s).1
+    s'.locks = s.locks ∧ s'.edges = s.edges ∧ detectCycle s'.edges = detectCycle s.edges ∧ s'.strategy = s.strategy ∧
+    (∀ o c, s.ctx? o = some c → ∃ c', s'.ctx? o = some c' ∧ c'.id = c.id ∧ c'.created = c.created ∧ c.prio ≤ c'.prio) ∧
+    (∀ o c', s'.ctx? o = some c' → ∃ c, s.ctx? o = some c ∧ c'.id = c.id ∧ c'.created = c.created ∧ c.prio ≤ c'.prio) ∧
+    (s.strategy ≠ .priority → ∀ agents, selectVictim s' agents = selectVictim s agents) := by
+  have h := boostSame_checkAndBoost s
+  exact ⟨h.locks, h.edges, by rw [h.edges], h.strategy, fun _ _ hc => h.ctx_after hc, fun _ _ hc => h.ctx_before hc,
+    fun hs agents => selectVictim_boostSame h hs agents⟩
+
+/-- **Victim rule of a maintenance run** (`run_maintenance` = `check_and_boost`, then `Watchdog.execute`).  When the run
+    terminates an operation for the reason DEADLOCK: the cycle is one of the graph recorded BEFORE the run, the victim is
+    a listed member of it, and
+    * under "priority" its CURRENT priority — the one it has after the boosts of this very run, which is what the
+      watchdog looks at — is the lowest among the listed members' current priorities (a member that priority inheritance
+      has just lifted above another one is not the victim any more, whatever it was started with);
+    * under "oldest" its creation time is the earliest among the listed members — creation times as they were before
+      the run: boosts do not touch them. -/
+theorem c15_maintenance_victim_is_min_of_current_priorities_or_oldest (s : Sys) (v : Nat)
+    (h : (v, Reason.deadlock) ∈ (maintenance s).2.2) :
+    let b := (checkAndBoost s).1
+    ∃ cyc cv cv0, detectCycle s.edges = some cyc ∧ v ∈ cyc ∧ b.ctx? v = some cv ∧ s.ctx? v = some cv0 ∧
+      cv0.prio ≤ cv.prio ∧
+      (s.strategy = .priority → ∀ o ∈ cyc, ∀ c, b.ctx? o = some c → cv.prio ≤ c.prio) ∧
+      (s.strategy = .oldest → ∀ o ∈ cyc, ∀ c, s.ctx? o = some c → cv0.created ≤ c.created) := by
+  have hb := boostSame_checkAndBoost s
+  have h' : (v, Reason.deadlock) ∈ (wdExecute (checkAndBoost s).1).2 := h
+  obtain ⟨cyc, cv, hcyc, hmem, hcv, hp, ho⟩ := c15_victim_is_min_priority_or_oldest _ v h'
+  obtain ⟨cv0, hcv0, _, hcr, hup⟩ := hb.ctx_before hcv
+  refine ⟨cyc, cv, cv0, by rw [← hb.edges]; exact hcyc, hmem, hcv, hcv0, hup, fun hs => hp (by rw [hb.strategy]; exact hs), ?_⟩
+  intro hs o ho' c hc
+  obtain ⟨c', hc', _, hcr', _⟩ := hb.ctx_after hc
+  have := ho (by rw [hb.strategy]; exact hs) o ho' c' hc'
+  omega
+
+private def bOps : List HOp :=
+  [.start 1 1, .start 2 2, .start 7 0, .start 8 9, .acq 1 1, .acq 2 2, .acq 7 3, .acq 1 3, .acq 1 2, .acq 2 1, .acq 8 1]
+
+private def b0 : HSt := ⟨((({} : Sys).register 1 false).register 2 false).register 3 false, []⟩
+
+/-- the maintenance theorem is not vacuous, and the current priorities are what matters: op1 (started with priority 1)
+    and op2 (priority 2) wait for each other; op1 asked the outsider op7 first, so the boost of the lead-in op8
+    (priority 9) travels op8 → op1 → op7 and lifts op1 to 9 while op2 stays at 2 — the run terminates op2, the member
+    whose priority was the HIGHER one when the operations were started -/
+example : detectCycle (hrun b0 bOps).sys.edges = some [1, 2] ∧
+    (maintenance (hrun b0 bOps).sys).2.2 = [(2, Reason.deadlock)] ∧
+    ((checkAndBoost (hrun b0 bOps).sys).1.ctx? 1).map (·.prio) = some 9 ∧
+    ((checkAndBoost (hrun b0 bOps).sys).1.ctx? 2).map (·.prio) = some 2 ∧
+    (wdExecute (hrun b0 bOps).sys).2 = [(1, Reason.deadlock)] := by decide
 
 /-- **After handling.**  If the victim's listed contexts track what it owns (the invariant `Kinv`, which every
     controller call preserves), then after `Watchdog.execute` the victim owns nothing, is not active, is in no
@@ -319,7 +374,7 @@ set_option synthInstance.maxSize 1024 in
 /-- **The victim rule is the code's, on a complete grid (table regenerated from the source on every run).**
     `Gen.victimProbe` (harness/vf/extract/victim_probe.py) is the real `Watchdog.check` EVALUATED on a controller whose
     three active operations form the recorded ring op1 → op2 → op3 → op1, for every strategy ("priority", "oldest",
-    anything else) x priorities in {0, 1, 2}³ x creation times in {0, 1, 2}³ µs — 2187 rows, all of `victimDomain`:
+    anything else) x priorities in {0, 1, 2}³ x creation times in {0, 25 h, 71 h}³ (microseconds, the clock at 72 h: ages of 3 d, 1 d 23 h, 1 h — the time-of-day part of an age is ordered differently from the age) — 2187 rows, all of `victimDomain`:
     every weak ordering of three keys with all its ties, the two keys crossed.  On every row the model's `wdCheck`
     (`detectCycle` on the same ring, `selectVictim`, `firstMinBy` = Python's `min`: the first minimal member in cycle
     order) names exactly the operation the code names in its DEADLOCK event.  A proof by `decide` over the complete
